@@ -553,28 +553,23 @@ class QuorumSensing:
         """Bayesian belief aggregation."""
         threshold = self.custom_threshold or self.MAJORITY_THRESHOLD
 
-        # Start with uniform prior
-        prior_permit = 0.5
-        prior_block = 0.5
-
-        # Update belief based on each vote
+        # Start with uniform prior (log-odds 0). Each vote is evidence for its
+        # own side and, by the complementary likelihood, against the other:
+        # a permit vote raises the odds of PERMIT, a block vote lowers them.
+        evidence = []
         for vote in permit_votes:
             # Higher confidence = more influence
             likelihood = 0.5 + (vote.confidence * 0.4)  # 0.5-0.9
-            prior_permit = self._bayesian_update(prior_permit, likelihood, vote.weight)
+            evidence.append(self._bayesian_update(likelihood, vote.weight))
 
         for vote in block_votes:
             likelihood = 0.5 + (vote.confidence * 0.4)
-            prior_block = self._bayesian_update(prior_block, likelihood, vote.weight)
+            evidence.append(-self._bayesian_update(likelihood, vote.weight))
 
-        # Normalize
-        total = prior_permit + prior_block
-        if total > 0:
-            posterior_permit = prior_permit / total
-        else:
-            posterior_permit = 0.5
+        # Posterior from the summed evidence (fsum: independent of vote order)
+        posterior_permit = 1.0 / (1.0 + math.exp(-math.fsum(evidence)))
 
-        reached = posterior_permit > threshold
+        reached = posterior_permit > threshold and len(permit_votes) > 0
         decision = VoteType.PERMIT if reached else VoteType.BLOCK
 
         return QuorumResult(
@@ -591,14 +586,15 @@ class QuorumSensing:
             votes=votes
         )
 
-    def _bayesian_update(self, prior: float, likelihood: float, weight: float) -> float:
-        """Apply Bayesian update with weighted evidence."""
-        # Weighted likelihood based on agent weight
+    def _bayesian_update(self, likelihood: float, weight: float) -> float:
+        """Log-likelihood ratio contributed by one vote with weighted evidence."""
+        # Weighted likelihood based on agent weight, kept a proper probability
         adjusted_likelihood = 0.5 + (likelihood - 0.5) * weight
+        adjusted_likelihood = min(max(adjusted_likelihood, 0.5), 0.99)
 
-        # Bayes' theorem: P(H|E) = P(E|H) * P(H) / P(E)
-        # Simplified: just multiply prior by likelihood
-        return prior * adjusted_likelihood
+        # Bayes' theorem: P(H|E) = P(E|H) * P(H) / P(E); the vote multiplies
+        # the odds of its hypothesis by P(E|H) / (1 - P(E|H))
+        return math.log(adjusted_likelihood / (1.0 - adjusted_likelihood))
 
     def _threshold_vote(
         self,
